@@ -57,6 +57,13 @@ Definition spec_build (s : irset) (on : bool) (mode : string) (target : Z) (fan 
     | [] => Silent       (* nothing stored for this mode (and temperature): the property does not say *)
     end.
 
+(* the separate swing command of a remote whose swing is its own button *)
+Definition spec_swing (s : irset) (on : bool) : spec_cmd :=
+  match stored s (s2l (if on then "FUN_d1" else "FUN_d0")) with
+  | Some w => Code (w_para w ++ [124%N] ++ w_hex w)
+  | None => Refused
+  end.
+
 Definition show_spec_cmd (c : spec_cmd) : bytes :=
   match c with
   | Code text =>
